@@ -43,10 +43,6 @@ def getInit (j : Json) : Except String (List (String × Json)) := do
       pure (kv.1, encPending pairs)
     else pure kv)
 
-def storeOfList (init : List (String × Json)) : Store Json :=
-  let hm : Std.HashMap String Json := Std.HashMap.ofList init
-  fun a => hm[a]?
-
 def cellJson (addr : String) (j : Json) : Json :=
   if addr = clockAddr then ofRat (readClock j)
   else if addr = pendingAddr then .arr ((decPending j).map (fun p => Json.arr #[actionJson p.1, actionJson p.2])).toArray
@@ -71,7 +67,8 @@ def job (fn : String) (j : Json) : Option (Except String Json) :=
       let cmds ← (← list (← field j "commands")).mapM getCommand
       let ds := descs.map compDisp
       let addrs := addressesOf descs (init.map (·.1))
-      let st := storeOfList init
+      let hm : Std.HashMap String (Option Json) := Std.HashMap.ofList (init.map (fun kv => (kv.1, some kv.2)))
+      let st : Store Json := lookupIn hm (fun _ => none)
       let P := jobPlayC addrs ds
       let mut e : JobEngine := jobInit st
       for c in cmds do
